@@ -747,8 +747,7 @@ pub async fn execute(plan: Plan, dir: &Path) -> RunOutcome {
         world.devices[0].bridge = None;
         tokio::task::yield_now().await;
         let dst = dir.join("d1");
-        wait_sqlite_closed(&src);
-        if let Err(e) = copy_dir_all(&src, &dst) {
+        if let Err(e) = snapshot_dir(&src, &dst).await {
             harness_err!(rec, plan, format!("copy device: {e}"));
         }
         match Device::open_existing("d1", &dst, kind, account_id, password).await {
